@@ -52,14 +52,68 @@ def mk_vals(vals, dtype):
     return np.array([int(v) for v in vals], dtype=dtype)
 
 
+def float_model_stream(res, rng, tier):
+    """Tie A in IEEE-754 for the grouped plain EMA: the real kernel _ema_grouped against Model/EmaFloat.v, a bit-exact
+    transcription in Coq's primitive floats (several groups, null keys, masks, every magnitude), evaluated by vm_compute."""
+    import os
+    import subprocess
+    from groupby_lib.emas import _ema_grouped
+    from ..common import VERIF, COQ
+    alpha_vals = [float("nan"), 1.0, 2.5, -3.0, 0.5, 0.1, 0.7, 4.0, 1e16, -1e16, 1e8 + 0.1, float(2**60), -7e15, float("inf"), float("-inf"), 1e308, -1e308, 5e-324, -0.0, 1e-300]
+    alphas = [0.5, 0.1, 0.9, 1.0, 1.0 / 3.0, 1e-3, 0.25, 0.999999]
+
+    def lit(x):
+        if x != x:
+            return "nan"
+        if x == float("inf"):
+            return "infinity"
+        if x == float("-inf"):
+            return "neg_infinity"
+        h = float(x).hex()
+        return "(" + h + ")" if h.startswith("-") else h
+    cases = []
+    for t in range(400 if tier == "quick" else 4000):
+        L = rng.randint(1, 16)
+        ng = rng.randint(1, 3)
+        keys = [rng.choice([-1] + list(range(ng))) if rng.random() < 0.15 else rng.randrange(ng) for _ in range(L)]
+        vals = [rng.choice(alpha_vals if rng.random() < 0.6 else alpha_vals[:8]) for _ in range(L)]
+        alpha = rng.choice(alphas)
+        mask = None if rng.random() < 0.6 else [rng.random() < 0.7 for _ in range(L)]
+        out = _ema_grouped(np.array(keys, dtype="int64"), np.array(vals, dtype="float64"), float(alpha), ng, None if mask is None else np.array(mask, dtype=bool))
+        cases.append((alpha, ng, keys, vals, mask, np.asarray(out, dtype="float64").tolist()))
+        res.note_case(repr(("ema-float-model", alpha, ng, keys, [lit(v) for v in vals], mask)), True)
+        res.count("stream", "float-model")
+    d = VERIF / ".cache" / "efloat" / str(os.getpid())
+    d.mkdir(parents=True, exist_ok=True)
+    body = ";\n  ".join(
+        f"({lit(alpha)}, {ng}%nat, [{'; '.join('((' + str(k) + ')%Z, ' + lit(v) + ', ' + ('true' if (mask is None or mask[i]) else 'false') + ')' for i, (k, v) in enumerate(zip(keys, vals)))}], "
+        f"[{'; '.join(lit(v) for v in outs)}])" for alpha, ng, keys, vals, mask, outs in cases)
+    (d / "cases.v").write_text("From Coq Require Import List ZArith PrimFloat.\nFrom GL Require Import Model.EmaFloat.\nImport ListNotations.\nOpen Scope float_scope.\n"
+                               "Definition cases : list (float * nat * list (Z * float * bool) * list float) :=\n  [" + body + "].\nEval vm_compute in map check_ema cases.\n")
+    p = subprocess.run(["timeout", "600", "coqc", "-Q", str(COQ / "theories"), "GL", "cases.v"], cwd=d, stdout=subprocess.PIPE, stderr=subprocess.STDOUT)
+    txt = p.stdout.decode(errors="replace")
+    flags = [w for w in txt.replace("[", " ").replace("]", " ").replace(";", " ").split() if w in ("true", "false")]
+    for f in d.iterdir():
+        f.unlink()
+    d.rmdir()
+    if p.returncode != 0 or len(flags) != len(cases):
+        res.model_mismatches.append(dict(case="ema-float-model", impl="-", model=f"coqc failed or printed {len(flags)} results for {len(cases)} cases: " + txt[-400:]))
+        return
+    for (alpha, ng, keys, vals, mask, outs), ok in zip(cases, flags):
+        if ok != "true":
+            res.model_mismatches.append(dict(case=dict(stream="ema-float-model", alpha=alpha, ngroups=ng, keys=keys, values=[lit(v) for v in vals], mask=mask), impl=str([lit(v) for v in outs]),
+                                             model="Model/EmaFloat.ema_grouped_float gives another bit pattern"))
+
+
 def run(res, tier="quick", seed=0, widen=False):
     from groupby_lib import GroupBy, ema, ema_grouped
 
     rng = random.Random(seed * 17 + 10 + (1 if widen else 0))
     drv = Driver()
+    float_model_stream(res, random.Random(seed * 17 + 1010 + (1 if widen else 0)), tier)
     res.rule = ("streams 1-7 of the module docstring: grouped plain EMA on all code sequences of length <= 5 over {-1,0,1} plus seeded longer ones (exact regime, "
                 "alpha in {1/2,1/4,3/4,1}, dyadic values, nulls, masks, float64/float32/int64/int32); grouped timed EMA with whole-halflife gaps (pre-1970, s/ms/us/ns); "
-                "ungrouped vs model; grouped(single group) vs ungrouped; halflife vs alpha for real halflives; GroupBy.ema both layouts; alpha=1 and 1200-row invalid runs; "
+                "ungrouped vs model; grouped(single group) vs ungrouped; halflife vs alpha for real halflives; GroupBy.ema both layouts; alpha=1 and 1200-row invalid runs; the real grouped kernel bit for bit against the primitive-float model Model/EmaFloat.v (magnitudes 5e-324..1e308, infinities, NaN, masks, null keys); "
                 "non-trivial = >= 2 groups or an invalid row; distinct = canonical case")
     viol = res.violations
 
